@@ -16,8 +16,8 @@ from harness import fw, gen_bits, cpp_build
 
 META = {
     "technique": "Coq proofs about a Gallina mirror of the C++ runtime's scalar read path (C++ integer semantics explicit) + differential correspondence through generated code",
-    "level_text": "Machine-checked theorems (Coq 8.16, no axioms), for every container size 1..8 bytes, byte order, bit offset, width 1..64 and all contents: the mirrored read path (MemoryAccessor load, memcpy+bswap and portable loops -> BitBlock -> OffsetBitBlock::ReadUInt -> UIntView / IntView::ConvertToSigned (both branches) / BcdView::ConvertToBinary and IsBcd / FlagView / EnumView / FloatView bit pattern) returns the documented value of exactly the field's bits, without undefined behaviour or failed CHECK, in a value type wide enough. For signed enums narrower than their underlying type the faithful model refutes the property (finding F1, theorem enum_signed_read_refuted) and the strongest true statement (width = underlying width) is proved. The model is tied to /repo on every run: generated modules are compiled by the working tree's embossc and g++, and every accessor's Ok/IsComplete/Read/sizeof/signedness is compared with the model (vm_compute) and with an independent arithmetic reference.",
-    "level_note": "Trusted: Coq kernel + vm_compute; g++ 12 as the semantics of C++ (integer promotion rules and GCC's implementation-defined choices are written into Bits/Model.v section 1); harness/gen_bits.py (generator, SPEC reference) and harness/cpp_build.py. Modelled, not verified: the C++ sources. Float: only the bit pattern is modelled (memcpy identity); [requires] validators and the generated struct code are C01's subject.",
+    "level_text": "Machine-checked theorems (Coq 8.16, no axioms), for every container size 1..8 bytes, byte order, bit offset, width 1..64 and all contents: the mirrored read path (MemoryAccessor load -> BitBlock -> OffsetBitBlock::ReadUInt, also through nested offset blocks -> UIntView / IntView::ConvertToSigned / BcdView::ConvertToBinary and IsBcd / FlagView / EnumView / FloatView bit pattern) returns the documented value of exactly the field's bits, without undefined behaviour or failed CHECK, in a value type wide enough; IsBcd's parallel-nibble trick is proved for every number of nibbles (all 2^64 values of uint64_t); the EMBOSS_NO_OPTIMIZATIONS configuration (portable shift-and-or loops, non-two's-complement ConvertToSigned branch) is proved to read the same values as the memcpy+bswap configuration. For signed enums narrower than their underlying type the faithful model refutes the property (finding F1, theorem enum_signed_read_refuted) and the strongest true statement (width = underlying width) is proved. The model is tied to /repo on every run: generated modules are compiled by the working tree's embossc and g++ (both runtime configurations), and every accessor's Ok/IsComplete/Read/UncheckedRead/sizeof/signedness/CHECK failures are compared with the model (extracted OCaml for all cases, Coq vm_compute for a sample) and with an independent arithmetic reference.",
+    "level_note": "Trusted: Coq kernel + vm_compute; extraction (ExtrOcamlBasic only) + OCaml for the bulk evaluation, cross-checked against vm_compute on a sample each run; g++ 12 as the semantics of C++ (integer promotion rules and GCC's implementation-defined choices are written into Bits/Model.v section 1; signed left shift is treated more strictly than C++14); harness/gen_bits.py (generator, SPEC reference) and harness/cpp_build.py. Modelled, not verified: the C++ sources. Float: only the bit pattern is modelled (memcpy identity; the driver prints the re-memcpy'd bits); [requires] validators and the generated struct code are C01's subject; the aligned EMBOSS_ALIAS_SAFE_POINTER_CAST accessors are represented by the memcpy model and are not exercised by the drivers (views are built with alignment 1).",
 }
 
 N_REPLAY_KEEP = 5
@@ -46,7 +46,7 @@ def evaluate(ctx, mods, mode, tag, given=None, count=True):
     t0 = time.time()
     jobs, info = _jobs_for(ctx, mods, mode, given)
     t1 = time.time()
-    results = cpp_build.run_jobs(os.path.join(ctx.bdir, "cpp_" + tag), jobs, parallel=16, timeout=600)
+    results = cpp_build.run_jobs(os.path.join(ctx.bdir, "cpp_" + tag), jobs, parallel=16, timeout=1500)
     t2 = time.time()
     ctx.extra.setdefault("timing_s", {})[tag] = dict(generate=round(t1 - t0, 1), embossc_gxx_run=round(t2 - t1, 1),
                                                      stages_max={k: round(max((r.times.get(k, 0) for r in results.values()), default=0), 1)
@@ -331,7 +331,9 @@ def run_bits(ctx, mode, prop):
     if fresh:
         accs = [all_cases[i][2]["acc"] for i, _ in fresh]
         opt = all_cases[fresh[0][0]][2]["m"].opt
-        found = search_spec(ctx, mode, accs, opt)
+        ctx.note("%d cases: model and C++ disagree although the C++ observation matches the SPEC" % len(fresh))
+        # a concrete failing input already in hand (an unlisted violation of the SPEC) makes the wider search unnecessary
+        found = any(v["found_input"] for v in ctx.violations) or search_spec(ctx, mode, accs, opt)
         if not found:
             i, out = fresh[0]
             obj = all_cases[i][2]
